@@ -91,7 +91,7 @@ def no_spans(x):
 
 CONFIG = {
     "C01": {
-        "lean_modules": ["Darling.Props.C01", "Darling.Props.C02", "Darling.Props.C01Corpus"],
+        "lean_modules": ["Darling.Props.C01", "Darling.Props.C02", "Darling.Props.C01Corpus", "Darling.Props.C01Spec"],
         "streams": [
             {"name": "c01", "n": {"quick": 8000, "thorough": 160000},
              "trivial": lambda case, ans: not ans.startswith("(ok")},
@@ -104,7 +104,7 @@ CONFIG = {
         "partial": "theorems are stated for the struct parser's item loop and literal (FromMeta structs; C08.walk_is_one_list reduces the element-level traits' attribute walk to the same loop; enums via C09's model); newtype / unit receivers proxy and are covered by the correspondence only",
     },
     "C02": {
-        "lean_modules": ["Darling.Props.C02", "Darling.Props.C01Corpus"],
+        "lean_modules": ["Darling.Props.C02", "Darling.Props.C01Corpus", "Darling.Props.C02Spec"],
         "streams": [
             {"name": "c02", "n": {"quick": 12000, "thorough": 240000},
              "trivial": lambda case, ans: not ans.startswith("(err")},
@@ -137,7 +137,7 @@ CONFIG = {
         "partial": "error algebra proved in full; placement proved for the derived struct parser's item loop (`coreLoop_placed`: every recorded mistake is spanned inside the item at fault, given converters that honour the same contract); placement inside built-in conversions and maps is mirrored site by site and tied by the correspondence streams plus the per-leaf containment judge on the implementation's answers",
     },
     "C04": {
-        "lean_modules": ["Darling.Props.C04"],
+        "lean_modules": ["Darling.Props.C04", "Darling.Props.C04Spec"],
         "streams": [
             {"name": "c04", "n": {"quick": 20000, "thorough": 400000},
              "trivial": lambda case, ans: "(len 1)" in ans and "(len " not in ans.replace("(len 1)", "")},
@@ -173,7 +173,7 @@ CONFIG = {
         "assumptions": ["syn's verdict on string literals inside options and strsim scores are oracle rows"],
     },
     "C08": {
-        "lean_modules": ["Darling.Props.C08"],
+        "lean_modules": ["Darling.Props.C08", "Darling.Props.C08Spec"],
         "streams": [
             {"name": "c08", "n": {"quick": 6000, "thorough": 120000},
              "trivial": lambda case, ans: False,
@@ -221,7 +221,7 @@ CONFIG = {
         "partial": "nesting depth is exercised to depth 3 by the streams; the theorems are depth-independent",
     },
     "C09": {
-        "lean_modules": ["Darling.Props.C09"],
+        "lean_modules": ["Darling.Props.C09", "Darling.Props.C09Spec"],
         "streams": [
             {"name": "c09", "n": {"quick": 8000, "thorough": 100000},
              "trivial": lambda case, ans: False},
@@ -230,7 +230,7 @@ CONFIG = {
         "assumptions": ["DistinctNames (effective names of selectable variants pairwise distinct) is a hypothesis of the uniqueness theorem"],
     },
     "C17": {
-        "lean_modules": ["Darling.Props.C17"],
+        "lean_modules": ["Darling.Props.C17", "Darling.Props.C17Spec"],
         "streams": [
             {"name": "c17", "n": {"quick": 10000, "thorough": 200000},
              "trivial": lambda case, ans: "Did you mean" not in ans},
@@ -244,7 +244,7 @@ CONFIG = {
         "assumptions": ["the similarity measure (strsim::jaro_winkler) is a parameter: theorems hold for arbitrary scores; the threshold literal is regenerated from the source"],
     },
     "C11": {
-        "lean_modules": ["Darling.Props.C11"],
+        "lean_modules": ["Darling.Props.C11", "Darling.Props.C11Spec"],
         "streams": [
             {"name": "c11", "n": {"quick": 4000, "thorough": 60000},
              "args": {"quick": [], "thorough": ["--exhaustive", "70000"]},
@@ -284,7 +284,7 @@ CONFIG = {
         "assumptions": ["element conversions do not panic (NoPanic hypothesis of the theorem; true of every built-in by C07)"],
     },
     "C15": {
-        "lean_modules": ["Darling.Props.C15", "Darling.Props.C15a"],
+        "lean_modules": ["Darling.Props.C15", "Darling.Props.C15a", "Darling.Props.C15Spec"],
         "streams": [
             {"name": "c15b", "n": {"quick": 80000, "thorough": 80000},
              "trivial": lambda case, ans: False},
@@ -298,7 +298,7 @@ CONFIG = {
         "partial": "the print / re-parse identity is judged on the implementation's answers (syn's printer is external), not proved",
     },
     "C18": {
-        "lean_modules": ["Darling.Props.C18"],
+        "lean_modules": ["Darling.Props.C18", "Darling.Props.C18Spec"],
         "streams": [
             {"name": "c18api", "n": {"quick": 1, "thorough": 1}, "trivial": lambda case, ans: False},
             {"name": "c18recv", "n": {"quick": 3000, "thorough": 1000000},
@@ -308,7 +308,7 @@ CONFIG = {
         "assumptions": ["the receivers' own `supports(..)` declarations are read back from the compiled corpus source and parsed by the model"],
     },
     "C19": {
-        "lean_modules": ["Darling.Props.C19"],
+        "lean_modules": ["Darling.Props.C19", "Darling.Props.C19Spec"],
         "streams": [
             {"name": "c19a", "n": {"quick": 15000, "thorough": 300000},
              "trivial": lambda case, ans: ans == "(uses () ())"},
@@ -319,7 +319,7 @@ CONFIG = {
         "assumptions": ["for<'x> binders that re-declare a queried lifetime are outside the judged domain (rustc rejects such shadowing)", "c19b: which fields are skipped is read from the declaration by the harness (own reader of `skip`, `skip = bool`)"],
     },
     "C05": {
-        "lean_modules": ["Darling.Props.C05"],
+        "lean_modules": ["Darling.Props.C05", "Darling.Props.C05Spec"],
         "streams": [
             {"name": "c05", "n": {"quick": 20000, "thorough": 400000},
              "trivial": lambda case, ans: "(hist () " in case},
